@@ -2,7 +2,7 @@
 From Coq Require Import ZArith QArith List Bool Lia ZifyBool String.
 Import ListNotations.
 Require SC3.model.Graph.
-Require Import SC3.model.Scgf SC3.model.GraphScgf SC3.proofs.C02_scgf SC3.proofs.C02_wf.
+Require Import SC3.model.Scgf SC3.model.GraphScgf SC3.proofs.C02_scgf SC3.proofs.C02_wf SC3.proofs.C02_reader.
 Open Scope Z_scope.
 
 Lemma const_index_from_range : forall q l i k, const_index_from q l i = Some k -> i <= k < i + zlen l.
@@ -170,4 +170,51 @@ Proof.
   intros g Hg f32 name pnames d Hd Hf Hn.
   destruct (to_sdef_wf_l f32 name pnames g Hf Hn Hg) as [d' [E W]].
   rewrite Hd in E. inversion E; subst d'. exact (wf_inputs_earlier d W).
+Qed.
+
+(* ------------------------------------------------------------------ *)
+(* order part + local part = structural part *)
+Lemma nth_z_app1 : forall {A} (a b : list A) i x, nth_z a i = Some x -> nth_z (a ++ b) i = Some x.
+Proof.
+  intros A a b i x H. unfold nth_z in *. destruct (i <? 0); [discriminate|].
+  rewrite nth_error_app1; [exact H|]. apply nth_error_Some. rewrite H. discriminate.
+Qed.
+
+Lemma nth_z_lt_some : forall {A} (l : list A) i, 0 <= i < zlen l -> exists x, nth_z l i = Some x.
+Proof.
+  intros A l i Hi. unfold nth_z. replace (i <? 0) with false by (symmetry; apply Z.ltb_ge; lia).
+  destruct (nth_error l (Z.to_nat i)) as [x|] eqn:E; [eexists; reflexivity|].
+  apply nth_error_None in E. unfold zlen in Hi. lia.
+Qed.
+
+Lemma gunits_order_local_core : forall consts nctl rest pre,
+  gunits_order consts (zlen pre) rest = true ->
+  forallb (gunit_local nctl (pre ++ rest)) rest = true ->
+  gunits_core consts nctl (map (fun g => Z.of_nat (Graph.g_nouts g)) pre) rest = true.
+Proof.
+  intros consts nctl rest; induction rest as [|g r IH]; intros pre Ho Hl; [reflexivity|].
+  cbn [gunits_order forallb] in Ho, Hl. cbn [gunits_core].
+  apply andb_true_iff in Ho. destruct Ho as [Hog Hor]. apply andb_true_iff in Hl. destruct Hl as [Hlg Hlr].
+  apply andb_true_iff. split.
+  - unfold gunit_local in Hlg. unfold gunit_core. split_andb.
+    assert (Hin : forallb (ginp_core consts (map (fun g0 => Z.of_nat (Graph.g_nouts g0)) pre)) (Graph.g_ins g) = true).
+    { match goal with Hc : forallb (ginp_chan _) _ = true |- _ =>
+        rewrite forallb_forall in Hog, Hc; apply forallb_forall; intros x Hx; specialize (Hog x Hx); specialize (Hc x Hx);
+        destruct x as [q|idx ch]; simpl in Hog, Hc |- *; [exact Hog|];
+        assert (Hr : 0 <= idx < zlen pre) by lia;
+        destruct (nth_z_lt_some pre idx Hr) as [V HV];
+        rewrite nth_z_map, HV; simpl;
+        rewrite (nth_z_app1 pre (g :: r) idx V HV) in Hc; exact Hc end. }
+    rewrite Hin.
+    repeat match goal with Hx : ?b = true |- context [?b] => rewrite Hx end. reflexivity.
+  - replace (map (fun g0 => Z.of_nat (Graph.g_nouts g0)) pre ++ [Z.of_nat (Graph.g_nouts g)])
+      with (map (fun g0 => Z.of_nat (Graph.g_nouts g0)) (pre ++ [g])) by (rewrite map_app; reflexivity).
+    apply IH.
+    + rewrite zlen_app. change (zlen [g]) with 1. exact Hor.
+    + rewrite <- app_assoc. exact Hlr.
+Qed.
+
+Lemma graph_order_local_core : forall g, graph_order_ok g = true -> graph_local_ok g = true -> graph_core_ok g = true.
+Proof.
+  intros g Ho Hl. unfold graph_core_ok. exact (gunits_order_local_core _ _ (Graph.gr_units g) [] Ho Hl).
 Qed.
